@@ -32,6 +32,9 @@ func newBigU(u uint64) *big.Int { return new(big.Int).SetUint64(u) }
 
 type specErr struct{ msg string }
 
+// skipClause: the clause mentions labels internal to the callee and cannot be used at a call site
+type skipClause struct{}
+
 func (e *SpecEnv) fail(x *SExpr, format string, args ...any) {
 	where := ""
 	if x != nil {
@@ -99,6 +102,10 @@ func (e *SpecEnv) resolveType(t *SType) types.Type {
 		return types.NewMap(e.resolveType(t.Key), e.resolveType(t.Elem))
 	}
 	if t.Pkg == "" {
+		switch t.Name {
+		case "bv64", "bv8", "bv32", "bv1":
+			return pseudoType(t.Name)
+		}
 		if r, ok := e.te[t.Name]; ok {
 			return r
 		}
@@ -286,6 +293,15 @@ func (e *SpecEnv) ident(x *SExpr) *Val {
 	if v, ok := e.vars[name]; ok {
 		return v
 	}
+	if strings.HasPrefix(name, "$") {
+		tn, ok := ghostDecls[name]
+		if !ok {
+			e.fail(x, "undeclared ghost variable %s", name)
+		}
+		gt := e.resolveType(&SType{Kind: "name", Name: tn})
+		ls := layoutTE(gt, nil)
+		return &Val{T: gt, L: []*Term{e.st.comp("g:"+name, ls[0].Sort)}}
+	}
 	switch name {
 	case "true":
 		return boolVal(True)
@@ -396,11 +412,23 @@ func (e *SpecEnv) localByName(name string) *Val {
 func (e *SpecEnv) binary(x *SExpr) *Val {
 	switch x.Op {
 	case "&&":
-		return boolVal(And(e.evalBool(x.Args[0]), e.evalBool(x.Args[1])))
+		l := e.evalBool(x.Args[0])
+		if l.IsFalse() {
+			return boolVal(False) // short-circuit: the right operand may mention names that do not exist on this path
+		}
+		return boolVal(And(l, e.evalBool(x.Args[1])))
 	case "||":
-		return boolVal(Or(e.evalBool(x.Args[0]), e.evalBool(x.Args[1])))
+		l := e.evalBool(x.Args[0])
+		if l.IsTrue() {
+			return boolVal(True)
+		}
+		return boolVal(Or(l, e.evalBool(x.Args[1])))
 	case "==>":
-		return boolVal(Implies(e.evalBool(x.Args[0]), e.evalBool(x.Args[1])))
+		l := e.evalBool(x.Args[0])
+		if l.IsFalse() {
+			return boolVal(True)
+		}
+		return boolVal(Implies(l, e.evalBool(x.Args[1])))
 	case "<==>":
 		return boolVal(Iff(e.evalBool(x.Args[0]), e.evalBool(x.Args[1])))
 	case "==", "!=":
@@ -563,6 +591,20 @@ func (e *SpecEnv) sel(x *SExpr) *Val {
 		e.fail(x, "selector on untyped value")
 	}
 	t := e.te.apply(v.T)
+	if strings.HasPrefix(x.Name, "$") {
+		pt := derefType(t)
+		if pt == nil {
+			e.fail(x, "ghost field on non-pointer %s", t)
+		}
+		key := typeName(e.te.apply(pt)) + "." + x.Name
+		tn, ok := ghostDecls[key]
+		if !ok {
+			e.fail(x, "undeclared ghost field %s", key)
+		}
+		gt := e.resolveType(&SType{Kind: "name", Name: tn})
+		ls := layoutTE(gt, nil)
+		return &Val{T: gt, L: []*Term{Select(e.st.comp(key, ArrSort(SInt, ls[0].Sort)), v.L[0])}}
+	}
 	if pt := derefType(t); pt != nil {
 		st := structOf(e.te.apply(pt))
 		if st == nil {
@@ -685,6 +727,31 @@ func (e *SpecEnv) call(x *SExpr) *Val {
 					out.L = append(out.L, Ite(c, a.L[i], b.L[i]))
 				}
 				return out
+			case "at": // at(L, e): e evaluated in the state snapshot labelled L
+				if e.fr == nil {
+					panic(skipClause{})
+				}
+				if len(args) != 2 || args[0].Kind != "ident" {
+					e.fail(x, "at(Label, expr)")
+				}
+				snap, ok := e.fr.snaps[args[0].Name]
+				if !ok {
+					// label not reached on this path: value irrelevant (guard with reached(L))
+					snap = e.fr.entry
+				}
+				n := *e
+				n.st = snap
+				n.mode = "inv"
+				return n.eval(args[1])
+			case "reached":
+				if e.fr == nil {
+					panic(skipClause{})
+				}
+				if len(args) != 1 || args[0].Kind != "ident" {
+					e.fail(x, "reached(Label)")
+				}
+				_, ok := e.fr.snaps[args[0].Name]
+				return boolVal(BoolLit(ok))
 			case "box": // box(v): the interface value holding v
 				v := e.eval(args[0])
 				return &Val{T: types.Universe.Lookup("any").Type(), L: []*Term{boxAny(v, e.te)}}
@@ -892,4 +959,40 @@ func specMod(a, b *Term) *Term {
 		return IntBig(new(big.Int).Rem(x, y))
 	}
 	return App("mod", SInt, a, b)
+}
+
+// assign performs "set LHS := value" on the environment's state: LHS is x.f, x.$ghost or $ghost.
+func (e *SpecEnv) assign(lhs *SExpr, val *Val) {
+	switch lhs.Kind {
+	case "ident":
+		if strings.HasPrefix(lhs.Name, "$") {
+			name := "g:" + lhs.Name
+			_ = e.st.comp(name, val.L[0].Sort)
+			e.st.heap[name] = val.L[0]
+			return
+		}
+	case "sel":
+		obj := e.eval(lhs.Args[0])
+		t := e.te.apply(obj.T)
+		pt := derefType(t)
+		if pt == nil {
+			e.fail(lhs, "set: receiver is not a pointer")
+		}
+		if strings.HasPrefix(lhs.Name, "$") {
+			key := typeName(e.te.apply(pt)) + "." + lhs.Name
+			h := e.st.comp(key, ArrSort(SInt, val.L[0].Sort))
+			e.st.heap[key] = Store(h, obj.L[0], val.L[0])
+			return
+		}
+		st := structOf(e.te.apply(pt))
+		i := fieldIndex(st, lhs.Name)
+		if i < 0 {
+			e.fail(lhs, "set: no field %s", lhs.Name)
+		}
+		a := e.run.addrOf(obj, e.te)
+		fa := e.run.fieldAddr(a, st, i, e.te)
+		e.run.store(e.st, fa, e.adapt(lhs, val, st.Field(i).Type()), e.te)
+		return
+	}
+	e.fail(lhs, "set: unsupported left-hand side")
 }
